@@ -66,6 +66,7 @@ class M16(refsem.Machine):
         self.fault_env = None
         self.trap_executed: set = set()   # (op name, result name hint) of executed trapping-capable ops
         self.for_execs = 0
+        self.implicit_syms = frozenset()
         self.mod_trunc = False     # evaluate affine `mod` as arith.remsi would (wrong-behaviour model, classifier only)
 
     # ------------------------------------------------------------------ hooks
@@ -263,7 +264,13 @@ class M16(refsem.Machine):
             elif n in ("symref.fetch", "symref.update"):
                 name = self._prop(op, "symbol").root_reference.data
                 if name not in self.symref:
-                    raise Undefined("use of undeclared symbol")
+                    if name in self.implicit_syms:
+                        # a symbol the SOURCE module never declares (it belongs to an enclosing scope the pass does
+                        # not see): an implicitly declared cell with a deterministic initial value
+                        t = op.results[0].type if op.results else op.operands[0].type
+                        self.symref[name] = self._opaque(t, ("outer-symbol", name), 0)
+                    else:
+                        raise Undefined("use of undeclared symbol")
             return super().run_op(op, env)
         except Undefined:
             if self.fault is None:
@@ -272,11 +279,12 @@ class M16(refsem.Machine):
             raise
 
 
-def run16(module, fname, args, step_limit=200000, mod_trunc=False):
+def run16(module, fname, args, step_limit=200000, mod_trunc=False, implicit_syms=frozenset()):
     """Like refsem.run but on M16; returns (outcome, machine) with outcome =
     ("ok", results, log) | ("undef", msg) | ("unsup", msg) | ("steps",) | ("badir", msg)."""
     m = M16(module, step_limit)
     m.mod_trunc = mod_trunc
+    m.implicit_syms = implicit_syms
     real, margs = [], []
     for k, a in enumerate(args):
         if isinstance(a, (tuple, list)) and a and a[0] == "memref":
